@@ -101,6 +101,23 @@ class Life:
             return list(zip(range(n)[i:], ds[i:]))
         if kind == 'items':
             return [(int(k[1:]), v) for k, v in ds.items()]
+        if kind in ('iter-consume', 'items-consume'):
+            # a consumer that works on the examples in place (adds a field,
+            # empties a list) inside the loop body; what it was handed is
+            # compared before it touches it
+            import copy
+            out = []
+            src = ds.items() if kind == 'items-consume' else zip(self.keys, ds)
+            for k, v in src:
+                out.append((int(k[1:]), copy.deepcopy(v)))
+                if isinstance(v, dict):
+                    v['consumed'] = True
+                    v['payload'].clear()
+                elif isinstance(v, list):
+                    v.append('consumed')
+                if len(out) > i:
+                    break
+            return out
         raise ValueError(kind)
 
 
@@ -248,7 +265,8 @@ def run_life(ld, n, hist, res):
     res.case(('life', n, tuple(hist)), reopened > 0)
 
 
-GETS = [('get', k, i, h) for k in ('idx', 'neg', 'key', 'iter', 'slice', 'items')
+GETS = [('get', k, i, h) for k in ('idx', 'neg', 'key', 'iter', 'slice', 'items',
+                                    'iter-consume', 'items-consume')
         for i in range(3) for h in (0, 1)]
 
 
@@ -256,7 +274,8 @@ def scripted_histories():
     """Every reuse x clear combination for the first and second open, with a
     partial fill, a copy that outlives the original, and a reopen."""
     for r1, c1, r2, c2 in itertools.product((False, True), repeat=4):
-        for fill in ((), (('get', 'idx', 1, 0),), (('get', 'iter', 1, 0), ('get', 'key', 2, 0))):
+        for fill in ((), (('get', 'idx', 1, 0),), (('get', 'iter', 1, 0), ('get', 'key', 2, 0)),
+                     (('get', 'iter-consume', 2, 0),), (('get', 'items-consume', 1, 0),)):
             for copy_first in (False, True):
                 h = [('open', r1, c1)] + list(fill)
                 if copy_first:
@@ -479,7 +498,8 @@ def run_shard(spec, res):
         for n, r_ in big:
             if r_ % spec['mod'] != spec['rem']:
                 continue
-            for first in (('get', 'iter', n - 1, 0), ('get', 'items', 0, 0)):
+            for first in (('get', 'iter', n - 1, 0), ('get', 'items', 0, 0),
+                          ('get', 'iter-consume', n - 1, 0)):
                 h = (('open', False, False), first, ('get', 'iter', n - 1, 0), ('copy', 0),
                      ('get', 'slice', 0, 1), ('get', 'neg', n - 1, 0), ('release', 0),
                      ('release', 0), ('open', True, True), ('get', 'iter', n - 1, 0),
